@@ -31,7 +31,7 @@ RULE = (
 )
 ASSUMPTIONS = ["concurrent runs use registry-less plans or registries whose stores are all fresh (read-only runs)"]
 
-ACTIONS = ["run", "run", "failrun", "failrun", "dry", "render", "copy_mut", "orig_mut", "concurrent", "run_noreg", "run_foreign"]
+ACTIONS = ["run", "run", "failrun", "failrun", "dry", "render", "copy_mut", "orig_mut", "concurrent", "run_noreg", "run_foreign", "source_hist", "det_concurrent"]
 
 
 @st.composite
@@ -47,6 +47,13 @@ def cases(draw, max_nodes):
              "output": draw(st.sampled_from(g_out))}
         if k == "failrun":
             a["fault"] = {"k": draw(st.integers(0, 12)), "mode": draw(st.sampled_from(["before", "after", "base"]))}
+        if k == "det_concurrent":
+            a["sched"] = draw(harness.schedules(det_only=True))
+            a["n"] = draw(st.sampled_from([2, 2, 3]))
+            a["stale"] = draw(st.sampled_from(["as_is", "delete_some", "fresh"]))
+        if k == "source_hist":
+            a["hist"] = draw(st.lists(st.tuples(st.integers(0, 1), st.integers(0, 1), st.integers(0, 1)).map(list),
+                                      min_size=2, max_size=5))
         if k == "render":
             a["registry"] = draw(st.booleans())
             a["level"] = draw(st.sampled_from([None, 0, 1, 2]))
@@ -108,7 +115,7 @@ def check_case(ctx, case, record=True):
         tag = f"[action {n}: {k} output={act.get('output')} cfg={act['cfg']}] "
         before = snapshot(w.plan, w.registry)
         transforms = bool(w.registry.mapping) or (act.get("output") is not None and "c" not in act["output"])
-        nt = (transforms and k not in ("run", "run_noreg")) or k == "concurrent"
+        nt = (transforms and k not in ("run", "run_noreg")) or k in ("concurrent", "det_concurrent")
         if record:
             ctx.case({"case": case, "action": n}, nt, ["action:" + k])
         w.reset_log()
@@ -155,8 +162,32 @@ def check_case(ctx, case, record=True):
             d = diff_snap(snap_copy, snapshot(p2, r2))
             if d:
                 ctx.violation(case, tag + f"a copy changed when its original was mutated: {d}")
+        elif k == "source_hist":
+            # a registry and its copy (and a plan and its copy) used side by side: Registry.source(plan, store)
+            # registers the node it returns in the registry AND the plan it was called with, and in no other
+            w2 = world.World(spec, registry=True)
+            regs = [w2.registry, w2.registry.copy()]
+            plans = [w2.plan, w2.plan.copy()]
+            pool = [world.LogicalStore(w2, 990), world.LogicalStore(w2, 991)]
+            for step, (ri, pi, si) in enumerate(act["hist"]):
+                other = regs[1 - ri]
+                keys_other = set(other.mapping)
+                nodes_other = set(plans[1 - pi].graph.nodes())
+                node = regs[ri].source(plans[pi], pool[si])
+                where = tag + f"history {act['hist'][:step + 1]} (registry, plan, store): "
+                if node not in regs[ri] or regs[ri].get(node) is not pool[si]:
+                    ctx.violation(case, where + "the node returned by Registry.source is not registered, with the given "
+                                                "store, in the registry it was called on")
+                if not plans[pi].graph.has_node(node):
+                    ctx.violation(case, where + "the node returned by Registry.source is not in the plan it was called with")
+                if set(plans[1 - pi].graph.nodes()) != nodes_other:
+                    ctx.violation(case, where + "Registry.source on one plan changed the nodes of its copy/original")
+                if set(other.mapping) != keys_other:
+                    ctx.violation(case, where + "Registry.source on one registry changed the entries of its copy/original")
         elif k == "concurrent":
             concurrent(ctx, case, w, act, tag)
+        elif k == "det_concurrent":
+            det_concurrent(ctx, case, w, act, tag)
         elif k == "run_foreign":
             # a registry shared with another plan: it also holds an entry for a node that is not in this plan.
             # Whatever run makes of that (it may well refuse), the caller's registry keeps all its entries.
@@ -197,6 +228,92 @@ def mutate(plan, registry):
         del registry.mapping[nodes[0]]
     with plan.scope("mut"):
         plan.call(len, "abc")
+
+
+def canon_physical(res, w):
+    """Canonical form of a dry run's (physical plan, output node): nodes of the caller's plan by identity, nodes the
+    transformation added by (function, the store it is bound to); multisets of nodes and of edges."""
+    import collections
+    p, node = res
+    orig = set(w.plan.graph.nodes())
+
+    def key(n):
+        if n is None:
+            return None
+        if n in orig:
+            return ("orig", id(n))
+        fn = getattr(n, "fn", None)
+        if fn is not None:
+            self_ = getattr(fn, "__self__", None)
+            return ("new", getattr(fn, "__qualname__", type(fn).__name__), id(self_) if self_ is not None else None)
+        return ("newlit", type(n).__name__)
+
+    nodes = collections.Counter(key(n) for n in p.graph.nodes())
+    edges = collections.Counter((key(u), key(v), type(k_).__name__, getattr(k_, "index", None), getattr(k_, "name", None))
+                                for u, v, k_ in p.graph.edges(keys=True))
+    return {"nodes": nodes, "edges": edges, "output": key(node)}
+
+
+def det_concurrent(ctx, case, w, act, tag):
+    """Several dry runs of the same Plan + Registry at the same time, interleaved by the deterministic scheduler at
+    opcode granularity inside the registry transformation: each returns the physical plan it returns when alone."""
+    from vlib import detsched
+    if act["stale"] == "delete_some":
+        for i in sorted(refmodel.entries(w.spec))[::2]:
+            nd = w.spec["nodes"][i]
+            if (nd["k"] != "src" or nd["deps"]) and not nd.get("alias"):
+                w.delete(i)
+    elif act["stale"] == "fresh":
+        try:
+            uberjob.run(w.plan, registry=w.registry, progress=None)
+        except BaseException:
+            pass
+    out_obj, _ = w.output_obj(act["output"]) if act["output"] is not None else (None, None)
+    kwargs = dict(progress=None, output=out_obj, registry=w.registry, dry_run=True, max_workers=act["cfg"].get("workers"))
+    try:
+        alone = ("ok", canon_physical(uberjob.run(w.plan, **kwargs), w))
+    except Exception as e:
+        alone = ("err", type(e).__name__)
+    n = act["n"]
+    results, errors = [None] * n, [None] * n
+
+    def work(i):
+        try:
+            results[i] = uberjob.run(w.plan, **kwargs)
+        except Exception as e:
+            errors[i] = e
+
+    def thunk():
+        ts = [detsched.MODEL.Thread(target=work, args=(i,)) for i in range(n)]
+        for t in ts:
+            t.start()
+        for t in ts:
+            t.join()
+        return ("ok", None)
+
+    import uberjob._registry as _reg
+    import uberjob._transformations.pruning as _pr
+    files = sorted(set(detsched.engine_files()) | {_reg.__file__, _pr.__file__})
+    out = harness.execute(thunk, act["sched"], files=files)
+    if out.verdict or out.uncaught or out.status != "ok":
+        ctx.violation(case, tag + f"concurrent dry runs: scheduler verdict {out.verdict} {out.verdict_info}; uncaught "
+                                  f"{out.uncaught!r}; {out.status} {out.value!r}")
+    for i in range(n):
+        if alone[0] == "err":
+            if errors[i] is None or type(errors[i]).__name__ != alone[1]:
+                ctx.violation(case, tag + f"dry run alone raises {alone[1]}, concurrent dry run {i}: {errors[i]!r} / returned")
+            continue
+        if errors[i] is not None:
+            ctx.violation(case, tag + f"concurrent dry run {i} of {n} raised {errors[i]!r} (cause {errors[i].__cause__!r}); "
+                                      f"alone it returns a plan")
+        got = canon_physical(results[i], w)
+        for part in ("nodes", "edges", "output"):
+            if got[part] != alone[1][part]:
+                a_, b_ = alone[1][part], got[part]
+                extra = (f"missing {list((a_ - b_).items())[:3]} extra {list((b_ - a_).items())[:3]}"
+                         if part != "output" else f"{a_} vs {b_}")
+                ctx.violation(case, tag + f"concurrent dry run {i} of {n} returned a different physical plan than the same "
+                                          f"dry run alone ({part}): {extra}")
 
 
 def concurrent(ctx, case, w, act, tag):
